@@ -2305,9 +2305,15 @@ class CxxParser:
 
                         assert not isinstance(dtype, FunctionType)
 
-                        dtype = FunctionType(
+                        dtype = dtype_fn = FunctionType(
                             dtype, fn_params, vararg, msvc_convention=msvc_convention
                         )
+                        if self.lex.token_if("ARROW"):
+                            return_type = self._parse_trailing_return_type(
+                                dtype_fn.return_type
+                            )
+                            dtype_fn.has_trailing_return = True
+                            dtype_fn.return_type = return_type
 
                         # the inner tokens must either be a * or a pqname that ends
                         # with ::* (member function pointer)
